@@ -83,6 +83,23 @@ CHECKS = {
     design_ref="DESIGN.md section 3 C17",
     note="Domain: non-empty token texts without white space unless quoted.  Differences between the library's class and the reference class are reported under C03.",
     technique="TLA+ classification model + TLC bounded exhaustive enumeration; code->spec judging of classification records"),
+ "C03": dict(
+    text="spec/MC_Doc.tla generates well-formed labels from spelling tables that state the denoted tree independently of the recognisers (every radix and sign "
+         "position, real forms, both quote characters, unquoted words, dates/times/offsets, units, nested sets and sequences, BEGIN_/plain keywords in three "
+         "letter cases, optional delimiters and end-statement names); TLC checks on the model that the reference loader (PvlLexer+PvlValues+PvlGrammar) reads "
+         "exactly the generated tree for every label and layout; every label is loaded by the 5 parser configurations and compared with the generated tree. "
+         "The reference class of every enumerated token text is also compared with the library's class.",
+    design_ref="DESIGN.md section 3 C03",
+    note="One statement per label is spelled from the full tables, the others canonically; <= 3 statements (4 thorough), nesting <= 2; numeric denotation (int(), float()) is trusted to Python.",
+    technique="TLA+ generator + reference loader, reader=writer model-checked by TLC; spec->code replay"),
+ "C04": dict(
+    text="Same generator (profile 'layout'): for every gap of every generated label every separator of the dialect's separator table (white-space characters, runs, "
+         "comments with hostile content, '#' comments) or its removal where optional, plus 3 global styles; TLC checks layout independence of the reference on the "
+         "model; every text is loaded by the real parser and must give the generated tree.  The tests/data corpus is re-laid-out at the reference lexer's token "
+         "boundaries (computed by TLC) with seeded separators and must load to the same module.",
+    design_ref="DESIGN.md section 3 C04",
+    note="A '#' comment that is not set off by white space or not ended by a line end, and white space after a units expression, are outside the statement and not generated.",
+    technique="TLA+ generator + reference loader + TLC; spec->code replay; metamorphic re-layout of real labels at TLC-computed token boundaries"),
 }
 PENDING_REASON = "check not built yet in this round (planned, see DESIGN.md section 6); not claimed until it runs"
 ALL = ["C%02d" % i for i in range(1, 21)]
